@@ -7,6 +7,19 @@ from .flow import Flow, op_place, pproj, transparent
 
 _cfg_cache = {}
 _flow_cache = {}
+_registered_caches = [_cfg_cache, _flow_cache]
+
+
+def register_cache(d):
+    """module-level memo tables keyed by id(Facts)/id(body) register here so that they can be
+    emptied whenever another tree's facts are loaded in the same process (ids are reused)"""
+    _registered_caches.append(d)
+    return d
+
+
+def reset_caches():
+    for d in _registered_caches:
+        d.clear()
 
 
 def cfg_of(body):
